@@ -21,6 +21,7 @@ type jobHist struct {
 	sp   JobSpec
 	id   string
 	jb   *job
+	jb2  *job // the job object of the second trigger (Mixed)
 	chk  *server.VCheck
 	viol []engine.Violation
 	last string
@@ -211,7 +212,13 @@ func (jh *jobHist) converged(when string) {
 			}
 		}
 		if !match {
-			jh.fail("converge-content:"+when, fmt.Sprintf("%s: sink has %s=%s, source latest is %v", when, id, got, cs))
+			clause := "converge-content:" + when
+			if strings.Contains(when, "of the second trigger") && jh.isOlderSourceVersion(id, got) {
+				// input class of the recorded known finding: the failed fullsync replayed the source history from the
+				// start and stopped after writing an OLDER version of this entity over the newer one
+				clause = "KF-failed-fullsync-regresses-sink:" + when
+			}
+			jh.fail(clause, fmt.Sprintf("%s: sink has %s=%s, source latest is %v", when, id, got, cs))
 		}
 	}
 	for id := range sink {
@@ -219,6 +226,23 @@ func (jh *jobHist) converged(when string) {
 			jh.fail("converge-extra:"+when, fmt.Sprintf("%s: sink has %s which no source dataset has", when, id))
 		}
 	}
+}
+
+// isOlderSourceVersion: got equals a version of id in some source dataset that is not its latest one.
+func (jh *jobHist) isOlderSourceVersion(id string, got model.Content) bool {
+	for _, src := range jh.sp.Sources {
+		d := jh.h.M.Datasets[src]
+		if d == nil {
+			continue
+		}
+		vs := d.Versions[id]
+		for i, v := range vs {
+			if i < len(vs)-1 && v.C.Equal(got) {
+				return true
+			}
+		}
+	}
+	return false
 }
 
 // rerunClass names the clause for "a re-run changed the sink": it singles out the two input classes of
@@ -277,6 +301,13 @@ func (jh *jobHist) sinkFeedDigest() string {
 
 // run performs one run; mode: "" clean, "fail" (sink rejects call n), "kill" (job killed when call n arrives).
 func (jh *jobHist) run(mode string, n int) (res *jobResult, panicked string) {
+	return jh.runWith(jh.jb, mode, n)
+}
+
+func (jh *jobHist) runWith(jb *job, mode string, n int) (res *jobResult, panicked string) {
+	keep := jh.jb
+	jh.jb = jb
+	defer func() { jh.jb = keep }()
 	real := jh.jb.pipeline.spec().sink
 	if ws, ok := real.(*wrappedSink); ok {
 		real = ws.s
@@ -302,6 +333,30 @@ func (jh *jobHist) run(mode string, n int) (res *jobResult, panicked string) {
 	panicked = runJob(jh.jb)
 	jh.jb.pipeline.spec().sink = real
 	return jh.jw.lastResult(jh.id), panicked
+}
+
+// stateKey: raw state of all datasets + the feed index each member token denotes.
+func (jh *jobHist) stateKey(names []string) string {
+	jw, h, p := jh.jw, jh.h, jh
+	toks, _ := jh.memberTokens()
+	var tl []string
+	for _, s := range p.sp.Sources {
+		_, _, pos := jh.feedOf(s)
+		idx := 0
+		for _, ps := range pos {
+			if toks != nil && ps < toks[s] {
+				idx++
+			}
+		}
+		tl = append(tl, fmt.Sprintf("%s@%d", s, idx))
+	}
+	sort.Strings(tl)
+	sinkDs := jw.W.Dsm.GetDataset(h.DsName(p.sp.Sink))
+	fs := false
+	if sinkDs != nil {
+		fs = sinkDs.FullSyncStarted()
+	}
+	return h.Canon([]string{"e1", "e2", "e3", "e4"}, names, strings.Join(tl, ",")+fmt.Sprintf("|fs=%v", fs))
 }
 
 type c08Params struct {
@@ -331,7 +386,15 @@ func vReplayJob(task engine.SeqTask) (res engine.SeqResult) {
 		return
 	}
 	jh := &jobHist{jw: jw, h: h, sp: p.Spec, id: jc.ID, jb: jb}
+	if p.Spec.Mixed {
+		if jh.jb2, err = jw.otherJob(jc.ID); err != nil {
+			res.HarnessEr = err.Error()
+			return
+		}
+	}
 	checks := 0
+	ran := false
+	keyAtEnd := ""
 	for i, raw := range task.Hist {
 		var op server.VOp
 		_ = json.Unmarshal(raw, &op)
@@ -345,14 +408,53 @@ func vReplayJob(task engine.SeqTask) (res engine.SeqResult) {
 				res.HarnessEr = err.Error()
 				return
 			}
+			if last && ran {
+				// a source write after earlier runs (possibly failed ones): the next clean run must restore equality
+				keyAtEnd = jh.stateKey(names)
+				checks++
+				if r2, p2 := jh.run("", 0); p2 != "" || r2.LastError != "" {
+					jh.fail("run-after-write-fails", fmt.Sprintf("the clean run after the last source write fails: %s %s", p2, r2.LastError))
+				} else {
+					jh.converged("after the last source write and one clean run")
+				}
+			}
+		case "run2", "run2fail":
+			// the other trigger of a Mixed job fires (clean, or with the sink failing at call N)
+			if jh.jb2 == nil {
+				res.Skip, res.Key = true, "skip"
+				return
+			}
+			ran = true
+			r, panicked := jh.runWith(jh.jb2, map[string]string{"run2": "", "run2fail": "fail"}[op.K], op.N)
+			if !last {
+				continue
+			}
+			checks++
+			if panicked != "" {
+				jh.fail("run-panics", "the run of the second trigger panics: "+panicked)
+				break
+			}
+			if op.K == "run2" && r.LastError != "" {
+				jh.fail("clean-run-fails", "a run of the second trigger with nothing injected fails: "+r.LastError)
+				break
+			}
+			keyAtEnd = jh.stateKey(names)
+			// whichever trigger fires next and succeeds must restore equality: the first trigger fires
+			if r2, p2 := jh.run("", 0); p2 != "" || r2.LastError != "" {
+				jh.fail("recovery-run-fails", fmt.Sprintf("the clean run of the first trigger after %s fails: %s %s", op.K, p2, r2.LastError))
+			} else {
+				jh.converged("after " + op.K + " of the second trigger and one clean run of the first")
+			}
 		case "run", "runfail", "runkill":
 			mode := map[string]string{"run": "", "runfail": "fail", "runkill": "kill"}[op.K]
 			before := jh.sinkFeedDigest()
 			tokBefore := jw.token(jh.id)
+			ran = true
 			r, panicked := jh.run(mode, op.N)
 			if !last {
 				continue
 			}
+			keyAtEnd = jh.stateKey(names)
 			checks++
 			if panicked != "" {
 				jh.fail("run-panics", "the run panics: "+panicked)
@@ -418,26 +520,12 @@ func vReplayJob(task engine.SeqTask) (res engine.SeqResult) {
 			}
 		}
 	}
-	// canonical key: raw state of all datasets + the feed index each member token denotes
-	toks, _ := jh.memberTokens()
-	var tl []string
-	for _, s := range p.Spec.Sources {
-		_, _, pos := jh.feedOf(s)
-		idx := 0
-		for _, ps := range pos {
-			if toks != nil && ps < toks[s] {
-				idx++
-			}
-		}
-		tl = append(tl, fmt.Sprintf("%s@%d", s, idx))
+	// the canonical key describes the state reached by the history's own operations (before the oracle's extra runs)
+	if keyAtEnd != "" {
+		res.Key = keyAtEnd
+	} else {
+		res.Key = jh.stateKey(names)
 	}
-	sort.Strings(tl)
-	sinkDs := jw.W.Dsm.GetDataset(h.DsName(p.Spec.Sink))
-	fs := false
-	if sinkDs != nil {
-		fs = sinkDs.FullSyncStarted()
-	}
-	res.Key = h.Canon([]string{"e1", "e2", "e3", "e4"}, names, strings.Join(tl, ",")+fmt.Sprintf("|fs=%v", fs))
 	res.Viol = jh.viol
 	res.Checks = checks
 	res.Outcome = res.Key[:8]
@@ -457,7 +545,7 @@ func init() {
 	})
 
 	engine.RegisterCheck("C08", func(r *engine.Run) {
-		r.Rule = "SEQ: for every job configuration (DatasetSource / UnionDatasetSource, with and without LatestOnly, incremental / fullsync, batch sizes 1,2,3,default) every sequence up to the stated depth over {source writes (props, refs, deletes, repeated ids), clean run, run with the sink failing at batch index 1..3, run killed at batch boundary 1..2, restart}; after every run: token safety (every source change below the persisted token is reflected in the sink), after a successful run sink view = source view and a re-run is a no-op, after a failed/killed run one clean run restores equality. CRASH: real SIGKILL at every durable commit and at the point between sink write and token store during a run"
+		r.Rule = "SEQ: for every job configuration (DatasetSource / UnionDatasetSource, with and without LatestOnly, incremental / fullsync, batch sizes 1,2,3,default) every sequence up to the stated depth over {source writes (props, refs, deletes, repeated ids), clean run, run with the sink failing at batch index 1..3, run killed at batch boundary 1..2, restart; for the mixed-trigger job also the fullsync trigger clean / failing at batch 1..2}; a history that ends in a source write after earlier runs is followed by one clean run; after every run: token safety (every source change below the persisted token is reflected in the sink), after a successful run sink view = source view and a re-run is a no-op, after a failed/killed run one clean run restores equality. CRASH: real SIGKILL at every durable commit and at the point between sink write and token store during a run"
 		r.Assumptions = []string{"no concurrent source writes during a run (as the property states)", "HTTP and proxy sources/sinks are outside (need a peer)"}
 		pool := model.Pool(0)
 		pi := func(n string) int { return model.PoolIndex(pool, n) }
@@ -484,6 +572,10 @@ func init() {
 				}
 			}
 		}
+		// incremental job with a second, fullsync trigger (one token shared by both)
+		for _, b := range []int{1, 2} {
+			cfgs = append(cfgs, cfgT{fmt.Sprintf("mixed-triggers,batch=%d", b), JobSpec{Sources: []string{"A"}, Sink: "Z", JobType: "incremental", BatchSize: b, Mixed: true}})
+		}
 		depth := 3
 		budget := 240
 		if !r.Quick() {
@@ -498,6 +590,9 @@ func init() {
 			}
 			if !r.Quick() {
 				alpha = append(alpha, server.VOp{K: "runfail", N: 3}, server.VOp{K: "runkill", N: 2})
+			}
+			if c.sp.Mixed {
+				alpha = append(alpha, server.VOp{K: "run2"}, server.VOp{K: "run2fail", N: 1}, server.VOp{K: "run2fail", N: 2})
 			}
 			if c.sp.Union {
 				alpha = append(alpha, server.VOp{K: "batch", DS: "B", Ents: []server.VEnt{{ID: "e4", C: pi("v1")}, {ID: "e1", C: pi("s")}}})
